@@ -13,7 +13,8 @@ def main(pid, argv):
     ck.rule = ("the full product of transports {unix socket, TCP loopback, in-memory pipe, bridge subprocess} x operations {ReadBytes, raw Read, Write} x {cancel, "
                "deadline} x cancellation instants {before the call, while blocked with nothing in flight, while a frame is partially received (in the kernel, or already in the connection's buffer behind a complete frame), after completion with a deadline that then passes}, "
                "each repeated; plus client-level scenarios in which Connection.Send and the receive function it returns get different contexts (the one that is done "
-               "must be the one that counts); observed: error class, latency against a one-sided bound (< 1 s while the peer stays silent for 3 s), goroutines left behind, and a "
+               "must be the one that counts) and full-duplex scenarios (a blocked write while a read is cancelled; a blocked write while the context of an earlier, "
+               "completed write is cancelled; a blocked read while writes complete); observed: error class, latency against a one-sided bound (< 1 s while the peer stays silent for 3 s), goroutines left behind, and a "
                "follow-up operation with a live context that must receive every byte the peer sends afterwards. distinct = distinct scenarios x repetition; "
                "non-trivial = scenario that cancels a blocked operation")
     ck.assumptions = ["promptness in seconds and kernel wake-ups are sampled (the theorem bounds the number of internal steps)",
@@ -35,6 +36,9 @@ def main(pid, argv):
         # client level: Send and the receive function it returns are given different contexts
         for t, kind, which in itertools.product(["unix", "tcp", "pipe"], ["cancel", "deadline"], ["sendctx", "recvctx"]):
             scen += ["%s clientrecv %s %s" % (t, kind, which)] * reps
+        # one connection used in both directions at once: what happens to one direction must not reach the other
+        for t, which in itertools.product(["unix", "tcp"], ["rdcancel", "stalehook", "rwshare"]):
+            scen += ["%s duplex cancel %s" % (t, which)] * reps
     # run in parallel shards (each scenario blocks ~0.1 s; a stuck one 3 s)
     from concurrent.futures import ThreadPoolExecutor
     jobs = 12
@@ -54,8 +58,8 @@ def main(pid, argv):
     uniq = list(dict.fromkeys(scen))
     # every transport is expected to honour deadlines
     # for the model a frame head that sits in the connection's own buffer is the same situation as one still in the kernel: no delimiter, the helper blocks
-    inst_of = {"buffered": "partial", "sendctx": "after", "recvctx": "blocked"}
-    model = V.run_model("ctx-run", ["1 %s %s" % ("cancel" if s.split()[3] == "sendctx" else s.split()[2], inst_of.get(s.split()[3], s.split()[3])) for s in uniq])
+    inst_of = {"buffered": "partial", "sendctx": "after", "recvctx": "blocked", "rdcancel": "after", "stalehook": "after", "rwshare": "after"}
+    model = V.run_model("ctx-run", ["1 %s %s" % ("cancel" if s.split()[3] in ("sendctx", "rdcancel", "stalehook", "rwshare") else s.split()[2], inst_of.get(s.split()[3], s.split()[3])) for s in uniq])
     nf = 0
     for sc, ml in zip(uniq, model):
         allowed = set(ml.split(","))
@@ -72,9 +76,9 @@ def main(pid, argv):
                 bad = "scenario failed: " + il[:200]
             elif f["speed"] != "fast":
                 bad = "the operation did not return promptly after its context was done (%s; the peer stayed silent for 3 s)" % f["speed"]
-            elif inst not in ("after", "sendctx") and f["class"] not in ("ctx", "timeout"):
+            elif inst not in ("after", "sendctx", "rdcancel", "stalehook", "rwshare") and f["class"] not in ("ctx", "timeout"):
                 bad = "a cancelled / expired operation reported %s instead of a context or timeout error" % f["class"]
-            elif inst in ("after", "sendctx") and f["class"] != "ok":
+            elif inst in ("after", "sendctx", "rdcancel", "stalehook", "rwshare") and f["class"] != "ok":
                 bad = "an operation whose context was live until completion reported %s" % f["class"]
             elif f["leak"] != "0":
                 bad = "%s goroutine(s) left behind" % f["leak"]
